@@ -169,8 +169,8 @@ def judge(src, *, optimize=True, power_pole_type=None, rnd=None, scalar_own_sign
     pv = ProgramVerdict(src, "judged", n_entities=len(c.ents), cap=cap if keep_cap else None)
     B = Symbolic()
     cin = circuit_inputs(c)
-    invars = {name: B.var(f"in_{name}") for name in cin}
-    overrides = {(num, sig): invars[name] for name, lst in cin.items() for (num, sig) in lst}
+    invars = {name: {sig: B.var(f"in_{name}.{sig}") for (_n, sig) in lst} for name, lst in cin.items()}
+    overrides = {(num, sig): invars[name][sig] for name, lst in cin.items() for (num, sig) in lst}
     try:
         prog = pipeline.parse(src)
         sem = Sem(B, inputs=invars)
@@ -270,10 +270,10 @@ def _judge_constant(c, B, name, val, overrides):
 def _concrete_eval(src, c, cin, values, name, anchor):
     """Both sides on concrete inputs (back end Concrete): (expected, got) as plain dicts."""
     CB = Concrete()
-    ov = {(num, sig): CB.const(values[n]) for n, lst in cin.items() for (num, sig) in lst}
+    ov = {(num, sig): CB.const(values[n][sig]) for n, lst in cin.items() for (num, sig) in lst}
     ev = Evaluator(c, CB, overrides=ov)
     got = {k: v for k, v in ev.anchor_content(anchor).items() if v != 0}
-    sem = Sem(CB, inputs={n: CB.const(v) for n, v in values.items()})
+    sem = Sem(CB, inputs={n: {s_: CB.const(v) for s_, v in d.items()} for n, d in values.items()})
     sem.run(pipeline.parse(src))
     val = sem.outputs().get(name)
     if isinstance(val, SigV):
@@ -287,9 +287,8 @@ def _concrete_eval(src, c, cin, values, name, anchor):
 
 def _witness(src, c, cin, model, invars, name, anchor):
     values = {}
-    for n, var in invars.items():
-        v = model.eval(var, model_completion=True)
-        values[n] = v.as_signed_long()
+    for n, d in invars.items():
+        values[n] = {s_: model.eval(var, model_completion=True).as_signed_long() for s_, var in d.items()}
     exp, got = _concrete_eval(src, c, cin, values, name, anchor)
     return {"inputs": values, "expected": exp, "anchor_network": got, "output": name}
 
@@ -311,7 +310,8 @@ def _random_search(src, c, cin, name, anchor, optimize, rnd):
     rnd = rnd or random.Random(0)
     pool = [0, 1, -1, 2, 3, 7, -7, 31, 32, 100, 2**31 - 1, -(2**31), 65536, 46341]
     for _ in range(200):
-        values = {n: rnd.choice(pool) if rnd.random() < 0.7 else rnd.randint(-(2**31), 2**31 - 1) for n in cin}
+        values = {n: {sig: (rnd.choice(pool) if rnd.random() < 0.7 else rnd.randint(-(2**31), 2**31 - 1))
+                      for (_e, sig) in lst} for n, lst in cin.items()}
         exp, got = _concrete_eval(src, c, cin, values, name, anchor)
         if exp is None:
             return None
